@@ -22,6 +22,24 @@ partial def replaceFirst (hay pat rep : Bytes) : Bytes :=
       | x :: xs => go (pre.push x) xs
   go #[] hay
 
+/-- cut a byte string into the encodings of complete ZMTP messages; returns them (printed) and
+what is left over -/
+def cutMsgs : Nat → Bytes → List String → Nat → Bytes → List String × Bytes
+  | 0, _, acc, _, cur => (acc, cur)
+  | fuel+1, b, acc, consumed, cur =>
+    -- `cur` = bytes from the start of the current message; `consumed` = bytes of it already framed
+    match cur.drop consumed with
+    | [] => (acc, if consumed == 0 then [] else cur)
+    | fl :: r =>
+      let long := fl &&& 2 != 0
+      let hdr := if long then 9 else 2
+      if (cur.drop consumed).length < hdr then (acc, cur) else
+      let len := if long then beNat (r.take 8) else (r.headD 0).toNat
+      if (cur.drop consumed).length < hdr + len then (acc, cur) else
+      let consumed := consumed + hdr + len
+      if fl &&& 1 == 0 then cutMsgs fuel b (acc ++ [showBytes (cur.take consumed)]) 0 (cur.drop consumed)
+      else cutMsgs fuel b acc consumed cur
+
 def perms {α} : List α → List (List α)
   | [] => [[]]
   | x :: xs => (perms xs).flatMap (fun p => (List.range (p.length + 1)).map (fun i => p.take i ++ [x] ++ p.drop i))
@@ -98,6 +116,12 @@ def worldOp (st : WSt) (wd : List String) : WSt × String :=
       else acc) []
     let all := (bases ++ alts).eraseDups
     ({ st with w := w }, " || ".intercalate (all.map fun x => s!"wire {showBytes x}"))
+  | ["wiresorted", p] =>
+    if (lookup st.w.pipes (num p)).isNone then (st, "bad-op no-pipe") else
+    let (w, b) := takeWire st.w (num p)
+    let (msgs, rest) := cutMsgs b.length b [] 0 b
+    let sorted := (msgs.toArray.qsort (fun a b => a < b)).toList
+    ({ st with w := w }, s!"wiresorted {";".intercalate sorted}" ++ (if rest.isEmpty then "" else s!"|rest:{showBytes rest}"))
   | ["halves", p] =>
     match lookup st.w.pipes (num p) with
     | none => (st, "bad-op no-pipe")
@@ -125,6 +149,26 @@ def worldOp (st : WSt) (wd : List String) : WSt × String :=
       | .router => addFut st (num f) (some sid) (.routerSend sid msg)
       | .dealer | .push => addFut st (num f) (some sid) (.sendRR sid msg none)
       | _ => addFut st (num f) (some sid) (.fail "bad-op no-send")
+  | "proxy" :: f :: a :: b :: rest =>
+    let (sa, sb) := (num a, num b)
+    if busy st sa || busy st sb then (st, "bad-op busy") else
+    match getSock st.w sa, getSock st.w sb with
+    | some x, some y =>
+      let okT (t : SockType) : Bool := t = .router || t = .dealer
+      let cap : Option Nat := match rest with
+        | [c] => some (num c)
+        | _ => none
+      let capOk := match cap with
+        | some c => match getSock st.w c with
+          | some z => z.typ = .push || z.typ = .pub || z.typ = .dealer
+          | none => false
+        | none => true
+      if !capOk then (st, "bad-op capture")
+      else if okT x.typ && okT y.typ then
+        let (st1, r) := addFut st (num f) (some sa) (.proxy sa sb cap 0 true [] .done)
+        ({ st1 with owner := st1.owner ++ [(num f, sb)] ++ (match cap with | some c => [(num f, c)] | none => []) }, r)
+      else (st, "bad-op proxy-types")
+    | _, _ => (st, "bad-op no-sock")
   | op :: f :: s :: rest =>
     if op == "sub" || op == "unsub" then
       let sid := num s
@@ -161,7 +205,7 @@ def worldOp (st : WSt) (wd : List String) : WSt × String :=
     | some (.fail r) =>
       ({ st with w := { st.w with futs := erase st.w.futs fid }, finished := st.finished ++ [fid] }, s!"ready {r}")
     | some fs =>
-      let (w, fs', o) := pollFut st.w fs
+      let (w, fs', o) := pollAny st.w fs
       match o with
       | .pending => ({ st with w := { w with futs := insert w.futs fid fs' } }, "pending")
       | .ready v =>
@@ -172,6 +216,7 @@ def worldOp (st : WSt) (wd : List String) : WSt × String :=
       -- an abandoned handshake drops its `FramedIo`
       let w := match lookup st.w.futs fid with
         | some (.attach _ _ _ rd wr) => { st.w with pipes := dropW (dropR st.w.pipes rd.pipe) wr.pipe }
+        | some (.proxy a b c _ _ _ _) => proxyEnd st.w a b c
         | _ => st.w
       ({ st with w := { w with futs := erase w.futs fid }, finished := st.finished.filter (· != fid),
                  owner := st.owner.filter (·.1 != fid) }, "ok")
